@@ -12,19 +12,19 @@ from common import Infra, run_tlc, Scratch, log
 
 # which P predicates decide which property (PipeProps.Verdicts)
 PREDS = {
-    "C05": ["NoEarlyClose", "NoStall", "PipePrefix", "PipeComplete", "PipeSettle", "PipeGen", "Prefix", "SeqExact", "FoldRes", "Complete", "TakeBound", "CallsPrefix", "CallsComplete", "Settle1"],
+    "C05": ["NoEarlyClose", "NoStall", "DoneMeansDone", "PipePrefix", "PipeComplete", "PipeSettle", "PipeGen", "Prefix", "SeqExact", "FoldRes", "Complete", "TakeBound", "CallsPrefix", "CallsComplete", "Settle1"],
     "C06": ["PipePrefix", "NoPanic", "Prefix", "FoldRes", "Settle1", "Settle2", "LiftCloses", "GenExact", "GenStops", "GenNoEarlyClose", "GenSettle", "JoinPerInput", "JoinNothingInvented"],
     "C07": ["NoEarlyClose", "NoStall", "Prefix", "Complete", "CallsPrefix", "CallsComplete", "Settle1", "LiftCloses", "NoPanic", "GenExact", "GenSettle"],
     "C08": ["NeverBlocksSender", "Prefix", "LosslessAfterCancel", "Complete", "Settle1", "NewSettle", "NoPanic"],
-    "C09": ["NoEarlyClose", "NoStall", "Prefix", "Complete", "CallsPrefix", "CallsComplete", "NoPanic", "Settle1", "Settle2"],
-    "C10": ["FoldRes", "Complete", "CallsComplete", "Settle1", "NoPanic"],
+    "C09": ["NoEarlyClose", "NoStall", "DoneMeansDone", "Prefix", "Complete", "CallsPrefix", "CallsComplete", "NoPanic", "Settle1", "Settle2"],
+    "C10": ["DoneMeansDone", "FoldRes", "Complete", "CallsComplete", "Settle1", "NoPanic"],
     "C11": ["GenExact", "GenStops", "GenNoEarlyClose", "EmitPaced", "EmitKeepUp", "Settle2", "GenSettle", "NoPanic"],
     "C12": ["JoinPerInput", "JoinNothingInvented", "JoinComplete", "Settle1", "Settle2", "NoPanic"],
     "C13": ["NoEarlyClose", "Prefix", "Complete", "ThrottleWindow", "ThrottlePaced", "Settle1", "Settle2", "NoPanic"],
 }
 STAGE_INV = {"Prefix": "PrefixInv", "FoldRes": "FoldResInv", "Complete": "CompleteInv", "TakeBound": "TakeBoundInv",
              "CallsPrefix": "CallsPrefixInv", "CallsComplete": "CallsCompleteInv", "NoPanic": "NoPanicInv",
-             "Settle1": "Settle1Inv", "Settle2": "Settle2Inv", "LiftCloses": "LiftClosesInv", "NoEarlyClose": "NoEarlyCloseInv", "NoStall": "NoStallInv"}
+             "Settle1": "Settle1Inv", "Settle2": "Settle2Inv", "LiftCloses": "LiftClosesInv", "NoEarlyClose": "NoEarlyCloseInv", "NoStall": "NoStallInv", "DoneMeansDone": "DoneMeansDoneInv"}
 SEQ_KINDS = ["Map", "FMap", "Filter", "ForEach", "Void", "Fold", "Partition", "Take", "TakeWhile"]
 
 
